@@ -8,6 +8,7 @@ import (
 	"encoding/json"
 	"fmt"
 	"os"
+	"strconv"
 	"time"
 
 	"github.com/cube2222/octosql/execution"
@@ -36,7 +37,56 @@ func (d *database) ListTables(ctx context.Context) ([]string, error) {
 	return out, nil
 }
 
+// numbersTable: a table whose schema and rows are a function of its options.
+//   start (0), step (1), count (5): rows start, start+step, ...;  name (i): the column's name;  sq=1 adds a column
+//   <name>sq with the squares.  `vt.numbers?step=10&count=3` therefore differs from `vt.numbers` in the same query.
+func numbersTable(options map[string]string) (Table, error) {
+	start, step, count, name, sq := int64(0), int64(1), int64(5), "i", false
+	for k, v := range options {
+		n, err := strconv.ParseInt(v, 10, 64)
+		switch k {
+		case "start":
+			start = n
+		case "step":
+			step = n
+		case "count":
+			count = n
+		case "sq":
+			sq = v == "1"
+			err = nil
+		case "name":
+			name = v
+			err = nil
+		default:
+			return Table{}, fmt.Errorf("numbers: unknown option %q", k)
+		}
+		if err != nil {
+			return Table{}, fmt.Errorf("numbers: option %s=%q: %w", k, v, err)
+		}
+	}
+	t := Table{TimeField: -1, Fields: []physical.SchemaField{{Name: name, Type: octosql.Int}}}
+	if sq {
+		t.Fields = append(t.Fields, physical.SchemaField{Name: name + "sq", Type: octosql.Int})
+	}
+	for k := int64(0); k < count; k++ {
+		v := start + k*step
+		row := []octosql.Value{octosql.NewInt(v)}
+		if sq {
+			row = append(row, octosql.NewInt(v*v))
+		}
+		t.Rows = append(t.Rows, row)
+	}
+	return t, nil
+}
+
 func (d *database) GetTable(ctx context.Context, name string, options map[string]string) (physical.DatasourceImplementation, physical.Schema, error) {
+	if name == "numbers" {
+		t, err := numbersTable(options)
+		if err != nil {
+			return nil, physical.Schema{}, err
+		}
+		return &impl{table: t}, physical.Schema{Fields: t.Fields, TimeField: t.TimeField, NoRetractions: true}, nil
+	}
 	t, ok := d.data.Tables[name]
 	if !ok {
 		return nil, physical.Schema{}, fmt.Errorf("no such table: %s", name)
